@@ -28,11 +28,8 @@ func (TrueSet) IsTrue() bool {
 }
 
 func (t TrueSet) Less(v Value) bool {
-	switch v.(type) {
-	case TrueSet, Number, Tuple, EmptySet:
-		return false
-	}
-	return true
+	// {()} is the only value of its kind.
+	return t.Kind() < v.Kind()
 }
 
 func (t TrueSet) Negate() Value {
